@@ -1,37 +1,56 @@
 /- Line-protocol driver.  Run:  lake env lean --run Driver/Main.lean   (Mathlib-free imports)
    One request per line on stdin, one reply per line on stdout.
-     f32 <mod.func> <tok>...   call generated function at Float32 (floats = decimal of bit pattern)
-     f64 <mod.func> <tok>...   same at Float (binary64)
-   Reply: space-separated result tokens, or `ERR <why>`.
+     f32 <mod.func> <tok>...          call generated function at Float32 (floats = decimal of bit pattern)
+     f64 <mod.func> <tok>...          same at Float (binary64)
+     arr <name> f|i <w> <ndim> d.. v..   store an array (Float32 payload) in the driver's memory
+     clr                               forget all arrays
+     k32 <mod.kernel> <ntid> t.. <scalar tok>...   run a generated kernel task on the stored arrays
+   Reply: space-separated result tokens / encoded write list, or `ERR <why>`.
    Protocol models (E2) register their own verbs in Driver/Proto.lean. -/
 import MjwVerif.Gen.Dispatch
 import Driver.Proto
 open Mjw
 
-def handle (line : String) : String :=
+structure St where
+  mem : Mem Float32 := {}
+  proto : Proto.PState := {}
+
+def handle (st : St) (line : String) : St × String :=
   let toks := (line.splitOn " ").filter (· ≠ "")
   match toks with
   | "f32" :: name :: args =>
     match Gen.dispatch (K := Float32) name args.toArray with
-    | some r => " ".intercalate r
-    | none => "ERR unknown-or-arity " ++ name
+    | some r => (st, " ".intercalate r)
+    | none => (st, "ERR unknown-or-arity " ++ name)
   | "f64" :: name :: args =>
     match Gen.dispatch (K := Float) name args.toArray with
-    | some r => " ".intercalate r
-    | none => "ERR unknown-or-arity " ++ name
+    | some r => (st, " ".intercalate r)
+    | none => (st, "ERR unknown-or-arity " ++ name)
+  | "arr" :: rest =>
+    match parseArr (K := Float32) rest with
+    | some (n, a) => ({ st with mem := st.mem.insert n a }, "ok")
+    | none => (st, "ERR bad-arr")
+  | "clr" :: _ => ({ st with mem := {} }, "ok")
+  | "k32" :: name :: nt :: rest =>
+    let n := nt.toNat!
+    let tids := ((rest.take n).map String.toInt!).toArray
+    match Gen.kdispatch (K := Float32) name st.mem (rest.drop n).toArray tids with
+    | some r => (st, "W " ++ r)
+    | none => (st, "ERR unknown-or-arity " ++ name)
   | verb :: args =>
-    match Proto.handle verb args with
-    | some r => r
-    | none => "ERR bad-verb " ++ verb
-  | [] => "ERR empty"
+    match Proto.handle st.proto verb args with
+    | some (p, r) => ({ st with proto := p }, r)
+    | none => (st, "ERR bad-verb " ++ verb)
+  | [] => (st, "ERR empty")
 
-partial def loop (h : IO.FS.Stream) (out : IO.FS.Stream) : IO Unit := do
+partial def loop (h : IO.FS.Stream) (out : IO.FS.Stream) (st : St) : IO Unit := do
   let line ← h.getLine
   if line.isEmpty then return ()
-  out.putStrLn (handle line.trimAscii.toString)
-  loop h out
+  let (st', r) := handle st line.trimAscii.toString
+  out.putStrLn r
+  loop h out st'
 
 def main : IO Unit := do
   let out ← IO.getStdout
-  loop (← IO.getStdin) out
+  loop (← IO.getStdin) out {}
   out.flush
